@@ -83,11 +83,28 @@ ShapeClauses(e) ==
 SliceClauses(e) ==
   IF e.obs # SliceIdx(e.sl.n, e.sl.start, e.sl.stop, e.sl.step) THEN {"slice-angles"} ELSE {}
 
-\* coverage: exc[i] = (worst excess of a projected corner beyond the detector along axis i) / half-extent,
-\* in units of 2^-20; the factories promise that the whole volume is covered
+\* coverage (the factories promise that the whole volume is covered with lines):
+\*  (1) relational: exc[i] = (worst excess of a projected corner beyond the detector along detector axis i, over
+\*      ALL corners of the volume and ALL angles of the produced geometry) / half-extent, in units of 2^-20
+\*  (2) exact: the observed half width w (w2 = w^2, an exact rational or off-lattice) of the origin-centred
+\*      detector is at least the layer-A bound for the cylinder radius taken over ALL corners:
+\*      rho for parallel beams, rho (rs + rd) / sqrt(rs^2 - rho^2) for divergent beams
+\* A failure of a divergent-beam factory is NAMED "coverage" if the observed width is what one gets from the
+\* true radius when rho / rs is read as the tangent instead of the sine of the half fan angle (the known width
+\* formula), and "coverage-radius" otherwise (the extent does not even belong to the true radius).
+TangentAsSineWidth2(rho2, rs, rd) == QDiv(QMul(rho2, QSq(QAddL(rs, rd))), QSq(rs))
 CoverClauses(e) ==
   IF e.err # "" THEN {"raised"}
-  ELSE IF \E i \in 1..Len(e.exc) : e.exc[i] > Slack THEN {"coverage"} ELSE {}
+  ELSE
+    LET rho2 == Rho2(e.corners)
+        par == e.fac = "parallel_beam_geometry"
+        need2 == IF par THEN ParHalfWidth2(rho2) ELSE CoverHalfWidth2(rho2, e.rs, e.rd)
+        narrow == e.w2[2] = 0 \/ QLt(e.w2, need2)
+        outside == \E i \in 1..Len(e.exc) : e.exc[i] > Slack
+        known == ~par /\ e.w2 = TangentAsSineWidth2(rho2, e.rs, e.rd)
+    IN  IF ~narrow /\ ~outside THEN {}
+        ELSE IF par \/ known \/ ~narrow THEN {"coverage"}
+        ELSE {"coverage-radius"}
 
 Clauses(e) == CASE e.k = "val" -> ValClauses(e)
                 [] e.k = "shape" -> ShapeClauses(e)
